@@ -56,7 +56,7 @@ def json_cases(sc, tr_http, tr_direct):
             if o == "insert":
                 if kind == "uist":
                     oo = op["order"]
-                    out.append(((k, "insert-request"), gc("CUInsert", exch.g_uorder(oo), g_json(raw))))
+                    out.append(((k, "insert-request"), gc("CUInsert", gt(go(oo.get("order_id"), gn), exch.g_uorder(oo)), g_json(raw))))
                 else:
                     pb = server.find_bt(tr_http["snaps"][k + 1], op["id"])
                     if pb and "some" in r and pb["exch"]["buffer"]:
